@@ -42,3 +42,18 @@ Proof.
   - intro H. rewrite (hist_step_alone h t s HLen H). simpl. now rewrite (len_is_length_map s V F).
   - intros k K H. rewrite (hist_step_alone h t s (HItem k) H). simpl. now rewrite (resolve_is_nth_map s k V F K).
 Qed.
+
+(* a kept accessor answers like a freshly fetched one, i.e. as the CURRENT index maps say: item k of the current map, the
+   current length, whatever the stack was when the accessor was obtained *)
+Lemma kept_is_fresh : forall fetched cur o, kept_eval fetched cur o = kept_eval cur cur o.
+Proof. reflexivity. Qed.
+
+Lemma kept_item_is_current_map : forall fetched cur k,
+  valid cur = true -> is_fin (den_of cur) = true -> - zlen (map_of cur) <= k < zlen (map_of cur) ->
+  kept_eval fetched cur (HItem k) =
+  HRItem (nth_error (map_of cur) (Z.to_nat (if k <? 0 then zlen (map_of cur) + k else k))) /\
+  kept_eval fetched cur HLen = HRLen (Some (zlen (map_of cur))).
+Proof.
+  intros f c k V F K. unfold kept_eval. simpl.
+  now rewrite (resolve_is_nth_map c k V F K), (len_is_length_map c V F).
+Qed.
